@@ -68,6 +68,18 @@ const PAIR: usize = 9;
 /// number of observed accounts
 const NACC: usize = 10;
 const NATIVE_DENOM: [&str; 3] = ["ulp", "uwhale", "ureward"];
+fn native_denom(cfg: &Cfg, b: usize) -> &'static str {
+    match (cfg.dn, b) {
+        (1, 1) => "ULP",
+        (1, 2) => "Ulp",
+        (2, 0) => "ibc/3A0F4BD2E5C1A7B8",
+        (2, 1) => "ibc/3a0f4bd2e5c1a7b8",
+        (2, 2) => "IBC/3A0F4BD2E5C1A7B8",
+        (3, 1) => "ul",
+        (3, 2) => "ulp1",
+        _ => NATIVE_DENOM[b],
+    }
+}
 const BAL0: u128 = 1u128 << 125;
 const MIN_D: u64 = 86_400;
 const MAX_D: u64 = 31_556_926;
@@ -363,6 +375,10 @@ struct Cfg {
     min_dur: u64,
     max_dur: u64,
     e0: u64,
+    /// denom shapes of the world (init token `dn=`; the model never looks at names): 0 plain; 1 the second native
+    /// denom is the LP denom in another letter case; 2 IBC vouchers differing in the case of the hash; 3 the second
+    /// native denom is a prefix / the LP denom with a suffix (seed C11-M: a case-insensitive denom comparison)
+    dn: u8,
 }
 
 #[derive(Clone, Debug, Default, PartialEq)]
@@ -485,7 +501,7 @@ impl World {
     fn name(&self, a: usize) -> String {
         let b = a % NB;
         if kind_native(&self.cfg, b) {
-            NATIVE_DENOM[b].to_string()
+            native_denom(&self.cfg, b).to_string()
         } else {
             self.token[b].clone().unwrap().to_string()
         }
@@ -568,9 +584,9 @@ impl World {
         let mut names: Vec<Addr> = ACCTS.iter().map(|n| Addr::unchecked(*n)).collect();
         let mut app = AppBuilder::new().with_bank(BankKeeper::new()).build(|router, _api, storage| {
             for n in ACTORS.iter().filter(|n| **n != "mallory") {
-                let mut coins: Vec<Coin> = vec![coin(BAL0, "uwhale"), coin(BAL0, "ureward")];
+                let mut coins: Vec<Coin> = vec![coin(BAL0, native_denom(&cfg, 1)), coin(BAL0, native_denom(&cfg, 2))];
                 if cfg.lp_native {
-                    coins.push(coin(BAL0, "ulp"));
+                    coins.push(coin(BAL0, native_denom(&cfg, 0)));
                 }
                 router.bank.init_balance(storage, &Addr::unchecked(*n), coins).unwrap();
             }
@@ -614,9 +630,9 @@ impl World {
         let puppet = app.instantiate_contract(puppet_id, owner.clone(), &Empty {}, &[], "mallory", None).unwrap();
         names[MALLORY] = puppet.clone();
         {
-            let mut coins: Vec<Coin> = vec![coin(BAL0, "uwhale"), coin(BAL0, "ureward")];
+            let mut coins: Vec<Coin> = vec![coin(BAL0, native_denom(&cfg, 1)), coin(BAL0, native_denom(&cfg, 2))];
             if cfg.lp_native {
-                coins.push(coin(BAL0, "ulp"));
+                coins.push(coin(BAL0, native_denom(&cfg, 0)));
             }
             app.init_modules(|router, _api, storage| router.bank.init_balance(storage, &puppet, coins).unwrap());
         }
@@ -665,7 +681,7 @@ impl World {
         if cfg.lp_native {
             // the mock pair hands out native LP from a pre-funded balance
             app.init_modules(|router, _api, storage| {
-                router.bank.init_balance(storage, &pair, vec![coin(BAL0, "ulp")]).unwrap();
+                router.bank.init_balance(storage, &pair, vec![coin(BAL0, native_denom(&cfg, 0))]).unwrap();
             });
         }
         let mut w = World {
@@ -1254,6 +1270,10 @@ impl Incentive {
                 min_dur: num("mindur")? as u64,
                 max_dur: num("maxdur")? as u64,
                 e0: num("e0")? as u64,
+                dn: match kv.get("dn") {
+                    None => 0,
+                    Some(v) => v.parse::<u8>().ok().filter(|d| *d <= 3)?,
+                },
             })
         })();
         let cfg = match cfg {
@@ -2319,7 +2339,7 @@ impl Incentive {
         //  re-entrant helper deposits]
         self.g_scen_done = [!rng.chance(1, 2), !rng.chance(1, 5), !rng.chance(1, 7), !rng.chance(1, 10), !rng.chance(1, 3), !rng.chance(1, 3)];
         format!(
-            "init incentive lp={} fee={} feeamt={} maxflows={} buffer={} mindur={} maxdur={} e0={}",
+            "init incentive lp={} fee={} feeamt={} maxflows={} buffer={} mindur={} maxdur={} e0={} dn={}",
             if lp_native { "native" } else { "cw20" },
             fee_asset,
             fee_amt,
@@ -2327,7 +2347,8 @@ impl Incentive {
             rng.range(0, 12),
             min_dur,
             max_dur,
-            self.g_epoch
+            self.g_epoch,
+            if rng.chance(1, 2) { 0 } else { rng.range(1, 3) }
         )
     }
 
@@ -2846,6 +2867,15 @@ impl Incentive {
             };
             if off == 0 {
                 String::new()
+            } else if cfg.lp_native && rng.chance(1, 16) {
+                // coins of ANOTHER native denom (in some worlds the LP denom in another letter case, a prefix of it,
+                // it with a suffix) instead of / next to the LP coins
+                let w = 1 + rng.below(2);
+                match rng.below(3) {
+                    0 => format!(" {w}:{off}"),
+                    1 => format!(" {w}:{amt}"),
+                    _ => format!(" 0:{off} {w}:{off}"),
+                }
             } else if !cfg.lp_native && rng.chance(1, 25) {
                 // coins of the native denom that spells the LP token's address instead of (or on top of) the allowance
                 if rng.chance(1, 2) {
